@@ -162,9 +162,10 @@ func TestVerif_C14(t *testing.T) {
 		prevDbg := disableDebugGoroutines.Load()
 		disableDebugGoroutines.Store(true)
 		defer disableDebugGoroutines.Store(prevDbg)
-		c.Rule("a case = SETTINGS configuration (server/client max frame size, stream and connection windows, header table sizes, write scheduler, request before/after the SETTINGS exchange) x request shape (method, path, header set, body length, declared/undeclared length, body Read chunking, trailers incl. a trailer block > 16 kB that needs CONTINUATION) x response shape (status, 103, header set, body length, declared length, Write chunking, Flush, declared / TrailerPrefix trailers incl. a trailer block > 16 kB, handler order); header set 2 really exceeds one frame after Huffman coding, so the pairs with bodyless messages (HEAD, 204, 304, empty body) put HEADERS(END_STREAM)+CONTINUATION on the wire; parts: 'cover' = covering array of strength 2 (thorough: 3) over all 27 dimensions; 'request-product', 'response-product', 'header-product' = full products of the dimensions that interact in one direction; 'header-block-boundary' = for every position a header block can take (request headers of a bodyless request / followed by a body, request trailers, response headers followed by a body / of a response whose handler writes nothing / 204 / to HEAD, declared response trailers; thorough: and 304, TrailerPrefix trailers after flushed writes, request trailers sent while the response is under way) the block's encoded length is swept byte by byte from about 160 below to at least 8 above 16384 (thorough: and 32768, and with 16 MB frames allowed), the observed block lengths at distance <= 2 of the boundary and whether a HEADERS frame carried END_STREAM without END_HEADERS are recorded as outcomes; 'short-read' = base scenarios x every placement of <= 1 (thorough: <= 2) short reads (1 or 7 bytes) at every read index of either direction. non-trivial = the exchange completed and all request and response observations were compared; distinct = distinct frame-type traces on the wire (both directions), distinct header block lengths, distinct truncating short-read placements")
+		c.Rule("a case = SETTINGS configuration (server/client max frame size, stream and connection windows, header table sizes, write scheduler, request before/after the SETTINGS exchange) x request shape (method, path, header set, body length, declared/undeclared length, body Read chunking, trailers incl. a trailer block > 16 kB that needs CONTINUATION) x response shape (status, 103, header set, body length, declared length, Write chunking, Flush, declared / TrailerPrefix trailers incl. a trailer block > 16 kB, handler order); header set 2 really exceeds one frame after Huffman coding, so the pairs with bodyless messages (HEAD, 204, 304, empty body) put HEADERS(END_STREAM)+CONTINUATION on the wire; parts: 'cover' = covering array of strength 2 (thorough: 3) over all 27 dimensions; 'request-product', 'response-product', 'header-product' = full products of the dimensions that interact in one direction; 'header-block-boundary' = for every position a header block can take (request headers of a bodyless request / followed by a body, request trailers, response headers followed by a body / of a response whose handler writes nothing / 204 / to HEAD, declared response trailers; thorough: and 304, TrailerPrefix trailers after flushed writes, request trailers sent while the response is under way) the block's encoded length is swept byte by byte from about 160 below to at least 8 above 16384 (thorough: and 32768, and with 16 MB frames allowed), the observed block lengths at distance <= 2 of the boundary and whether a HEADERS frame carried END_STREAM without END_HEADERS are recorded as outcomes; 'short-read' = base scenarios x every placement of <= 1 (thorough: <= 2) short reads (1 or 7 bytes) at every read index of either direction; 'graceful-goaway' = full product of {what makes the server send GOAWAY(NO_ERROR): http.Server.Shutdown / Server.IdleTimeout expiring} x {the request's HEADERS frame and everything after it is still unread by the server when it sends the GOAWAY, so the last-stream-id is below the request's stream / the handler is already running, the last-stream-id covers the stream} x {the request is stream 1 of a new connection / stream 3 after a completed exchange} x {no body / one-shot body (io.ReadCloser, no Request.GetBody, Close does not disturb later Reads) / the same with GetBody} x {which of the body's Read calls 0..3 (3 chunks, then EOF) is the one that returns only after the GOAWAY has reached the Transport, or none} x declared/undeclared length x trailers {0, 1; thorough: 20} x {250-byte body under a 1 MB window / 70001-byte body over a 65535-byte window, i.e. the Transport also waits for flow control}; here the client is Transport.RoundTrip with its own connection pool dialling up to 3 in-memory connections, each to a fresh Server instance with the same handler, so the Transport's retry on a new connection is inside the explored space. non-trivial = the exchange completed and all request and response observations were compared; distinct = distinct frame-type traces on the wire (both directions), distinct header block lengths, distinct truncating short-read placements")
 		c.Assume("excluded from the domain: request trailers without a request body stream; handlers that answer with a status > 299 before reading the request body (the Transport then stops sending the body by documented heuristic); 204/304 with content; bodies that would need more than 4000 window refills (1-byte windows with large bodies: cost); Expect: 100-continue, CONNECT, hop-by-hop fields, gzip (DisableCompression), Transfer-Encoding, Host/Priority/Trailer/Te fields set by the application; server push; concurrent requests on one connection (see C08-C11, C15, C17); the deprecated RFC 7540 scheduler in the two situations where the server resets the stream mid-handler (C12 finding crashes the server there)")
 		c.Assume("allow-list of fields the libraries add: request User-Agent default and Content-Length (must equal the body length); response Date (any value) and Content-Length (must equal the number of bytes the handler wrote); Content-Type sniffing is avoided by always setting Content-Type; HEAD responses carry neither body nor trailers; values of one field name are compared in order, different names as a multiset; names are compared after net/http canonicalisation")
+		c.Assume("part 'graceful-goaway': oracle = every handler invocation (on whichever connection) that read a request body to a clean EOF observed exactly the request that was sent; a stream the GOAWAY covers completes with the faithful response; a stream above the last-stream-id ends in a faithful exchange on another connection or in a RoundTrip error (whether it must be retried is C18's subject, duplicates too); no hang. Not covered: GOAWAY with an error code, GOAWAY caused by a handler's 'Connection: close' (needs concurrent requests to race), client windows other than the defaults, more than one GOAWAY-struck connection per request")
 		c.Assume("goroutine schedules are those the Go scheduler produces with GOMAXPROCS=1 inside the bubble plus the variations induced by Early and by short reads; no preemption points inside library calls are enumerated")
 
 		dims := c14Dims(wide)
@@ -383,5 +384,10 @@ func TestVerif_C14(t *testing.T) {
 		if !c.Replaying() {
 			c.Note("short_read.max_deviations", maxDev)
 		}
+
+		// ---- the exchange while the server shuts the connection down gracefully
+		vx.Enumerate(c, "graceful-goaway", vx.Opts{Serial: true, Crumb: true}, func(yield func(c14ShutCase) bool) {
+			c14ShutCases(wide, yield)
+		}, c14ShutRun)
 	})
 }
